@@ -77,8 +77,9 @@ type FuncContract struct {
 	Bounded      []BoundedDef
 	RecvAssumes  map[string][]*Clause
 	GhostSets    []GhostSet
-	NoSafety     string // reason why panic-freedom obligations are not generated for this function
-	SpawnChecked bool   // the requires clauses are obligations of every go statement that starts this function
+	NoSafety     string   // reason why panic-freedom obligations are not generated for this function
+	SpawnChecked bool     // the requires clauses are obligations of every go statement that starts this function
+	DeadReturns  []string // return statements (text #ordinal) that the callees' contracts make unreachable: no reachability canary
 }
 
 type GhostSet struct {
@@ -568,6 +569,8 @@ func (sp *Specs) LoadFile(path, pkgName string) error {
 			cur.CallsArg = true
 		case "spawn_checked":
 			cur.SpawnChecked = true
+		case "unreachable_return":
+			cur.DeadReturns = append(cur.DeadReturns, strings.Trim(strings.TrimSpace(rest), `"`))
 		case "merge_paths":
 			cur.Merge = true
 		case "never_returns":
